@@ -195,6 +195,8 @@ def excess_bits(v, backend):
 
 
 class Driver:
+    root_time_limit = 900       # seconds of wall clock per analysis root; exceeding it is reported as "analysis did not complete" (fails closed)
+
     def __init__(self, F, backend, budget=40_000_000):
         self.F = F
         self.backend = backend
@@ -325,6 +327,7 @@ class Driver:
                 return None
             vals.append(v)
         t0 = time.time()
+        self.ip.deadline = t0 + self.root_time_limit
         try:
             ret, root = self.ip.run_root(f, vals, colls=True, tyenv=tyenv)
         except Budget as e:
